@@ -161,7 +161,12 @@ def _decide(obl: Obligation, budget: float, confirm: bool, tmpdir: str):
     total = 0.0
     verdicts = []
     # stage 1: quick z3-new; stage 2: the two others; stage 3: z3-new full budget
-    stages = [("z3-5.1", min(3.0, budget)), ("cvc5-1.0.3", budget), ("z3-4.8.12", budget), ("z3-5.1", budget)]
+    if obl.kind in ("cover", "canary"):
+        # vacuity guards: a satisfiability query; only a PROOF of unsat is a failure, so a short budget suffices
+        stages = [("z3-5.1", min(3.0, budget))]
+        confirm = False
+    else:
+        stages = [("z3-5.1", min(3.0, budget)), ("cvc5-1.0.3", budget), ("z3-4.8.12", budget), ("z3-5.1", budget)]
     decided = None
     for solver, t in stages:
         verdict, dt, out = _run(solver, path, t)
